@@ -20,6 +20,14 @@ Case kinds
          one process.  oracle: ends in time with success or ColangParsingError naming a file; the loaded flows are exactly the
          flows of the files of the tree (composition); the edit does not change them; a second load gives the same result.
          model: `ImportLoop.fromPath` (the import fix-point and the parse loop) on the world read off the tree.
+  str    every STRING FORM of Colang 2.x (STRING / LONG_STRING of both quote kinds, single- and multi-line, lone quotes of the other
+         kind, escapes, `#`, interpolations, line tails of 30-200 characters; COMMENT forms) in every position where a string may
+         stand, plus a layout variant (harness/impl/c13_str.py); also: such programs with one quote character mutated, and "pumped"
+         lines (one short text x 30-60 + a breaking character) in every kind of place of a 2.x / 1.0 file.  Loaded with
+         `RailsConfig.from_path` in ONE forked child under a CPU-time limit: a decoy configuration, the program, the variant, the
+         program again.  oracle: ends in time with success or ColangParsingError naming the file; loads exactly the flows it defines;
+         the variant changes neither the flows nor the comment-free `source_code`; the second load equals the first.
+         model: `CommentStrip.strip` on every call `ColangTransformer._remove_source_code_comments` received.
   fmt    synthetic exception objects (with/without line/column, odd values) raised by a patched
          `parse_colang_file` inside the real `_parse_colang_files_recursively`; same oracle and model.
 """
@@ -39,9 +47,11 @@ import time
 import traceback
 
 from ..impl import c13_cfg as cfgk
+from ..impl import c13_str as strk
 from ..translate import c13 as tr
 from ..translate import c13raise as tr_raise
 from ..translate import c13imports as tr_imp
+from ..translate import c13regex as tr_rx
 
 PROPERTY = "C13"
 THEOREM_MODULE = "NemoVerif.Theorems.C13"
@@ -55,11 +65,16 @@ RULE = ("layout cases: a source (one of the ~210 shipped .co files of the tree u
         "the standard library, the local modules, missing modules; repeated / circular / self imports; one edit of the tree from "
         "{import line written twice, import lines re-ordered, import copied to another file, config.yml entry twice / also as import, "
         "blank line / trailing blanks / end-of-line comment / CRLF at an import line}. "
+        "string forms: 1-3 flows of 1-5 statements, each a string (quote kind x single/triple x one-line/multi-line x 14 ingredients x long tail) in "
+        "one of 22 positions, comment lines / end-of-line comments, + one layout variant at a statement end; the same with one quote character "
+        "mutated; pumped lines (32 atoms + the bodies of flagged regex repeats, x 30-60, 11 breakers, 10 opening delimiters) in 21 places of a 2.x "
+        "and 26 of a 1.0 file; non-trivial = the program loads to at least one flow (pumps: the load ended). "
         "distinct = distinct case JSON.")
 TRUSTED_BASE = [
     "translator harness/translate/c13.py (colang.lark _NEWLINE / COMMENT / %ignore shapes, PythonIndenter constants, shape of the try/except and of the formatter)",
     "correspondence harness harness/props/C13.py (piece segmentation by the grammar's own lexer with dont_ignore; exception records) + Lean driver Drive/C13.lean",
     "translator harness/translate/c13imports.py (shape of _join_config's import_paths part, _load_imported_paths, the loop of _parse_colang_files_recursively, from_path) and the world extraction of harness/impl/c13_cfg.py (os.walk order, yaml import_paths, resolution rule) for Models/ImportLoop.lean",
+    "translator harness/translate/c13regex.py (shape and pattern of ColangTransformer._remove_source_code_comments for Models/CommentStrip.lean; the set of quote-initial terminals of colang.lark; static + dynamic inventory of the regexes run over file content with the nested-quantifier analysis) and the recording wrapper around _remove_source_code_comments (harness/impl/c13_str.py)",
     "Lark's LALR engine and ColangTransformer are functions of the token stream (types, texts of non-`_` terminals); the Colang 1.0 parser uses get_numbered_lines' indentation only through comparisons - both only searched, not proved",
 ]
 ASSUMPTIONS = [
@@ -69,12 +84,15 @@ ASSUMPTIONS = [
 ]
 SERIAL = False
 ERR_TIMEOUT = float(os.environ.get("VERIF_C13_TIMEOUT", "10"))
+ERR_CPU = int(os.environ.get("VERIF_C13_ERR_CPU", "5"))
+N_STR_QUICK = int(os.environ.get("VERIF_C13_NSTR", "500"))
 
 
 def translate():
     info = tr.run()
     info["raise_sites"] = tr_raise.run()
     info.update(tr_imp.run())
+    info["regexes"] = tr_rx.run()
     return info
 
 
@@ -891,6 +909,25 @@ def mutate_text(rng, s):
     return "".join(rng.choice(SOUP) for _ in range(rng.randrange(1, 40)))
 
 
+def mutate_quote(rng, s):
+    """one quote character removed / doubled / replaced by the other kind / a backslash put in front: unterminated, mis-nested and
+    re-paired strings (what is left of the line, often 30-200 characters, is what a matcher has to give up on)"""
+    pos = [i for i, ch in enumerate(s) if ch in "\"'"]
+    if not pos:
+        return mutate_text(rng, s)
+    i = rng.choice(pos)
+    r = rng.random()
+    if r < 0.45:
+        return s[:i] + s[i + 1:]
+    if r < 0.6:
+        return s[:i] + s[i] + s[i:]
+    if r < 0.8:
+        return s[:i] + ("'" if s[i] == '"' else '"') + s[i + 1:]
+    if r < 0.9:
+        return s[:i] + "\\" + s[i:]
+    return s[:i] + s[i] * 3 + s[i + 1:]
+
+
 EXC_CLASSES = ["Exception", "ValueError", "KeyError", "AssertionError", "IndexError", "SyntaxError", "UnicodeError", "RecursionError",
                "DedentError", "UnexpectedToken", "UnexpectedCharacters", "UnexpectedEOF", "VisitError", "BaseOnly"]
 ATTR_VALUES = ["missing", None, 0, 1, 2, 3, 4, 7, -1, -2, -9, True, {"other": "str"}, {"other": "float"}]
@@ -951,6 +988,18 @@ def gen_cases(rng, tier):
         # whole configuration directories: several .co files + config.yml + imports (repeated, circular, missing, standard
         # library, local modules), Colang 2.x and 1.0, each with an edit that cannot change the meaning
         cases.append(cfgk.gen_cfg_case(rng))
+    for _ in range(N_STR_QUICK if quick else 3000):
+        # every string form (STRING / LONG_STRING of either quote kind, single- and multi-line, escapes, lone quotes of the other kind,
+        # `#`, interpolations, long line tails) in every position where a string may stand, loaded under a CPU-time limit
+        cases.append(strk.gen_str_case(rng))
+    for _ in range(300 if quick else 3000):
+        # back-tracking candidates: one short text repeated 30-60 times + a character that ends it, in every kind of place a line can
+        # stand (2.x and 1.0); the bodies of the repeats the static scan flagged are among the repeated texts
+        cases.append(strk.gen_pump_case(rng, tr_rx.flagged_bodies()))
+    for _ in range(200 if quick else 2000):
+        # error path aimed at the string forms: one quote character of such a program removed / doubled / swapped / escaped (unterminated
+        # and mis-nested strings with long line tails), loaded under the CPU-time limit
+        cases.append({"kind": "str", "text": mutate_quote(rng, strk.texts_of(strk.gen_str_case(rng))[0]), "vtext": None, "pump": True, "mut": "quote"})
     return cases
 
 
@@ -1018,11 +1067,11 @@ def canon_ast(x):
     return repr(x)
 
 
-def parse_real(content, version):
+def parse_real(content, version, strip_calls=None):
     from nemoguardrails.colang import parse_colang_file
 
     try:
-        with contextlib.redirect_stdout(io.StringIO()):
+        with contextlib.redirect_stdout(io.StringIO()), (strk.recording_strip(strip_calls) if strip_calls is not None else contextlib.nullcontext()):
             r = parse_colang_file("f.co", content=content, version=version)
         c = canon_ast(r)
         n = len(c.get("flows", []) or []) + len(c.get("user_messages", {}) or {}) + len(c.get("bot_messages", {}) or {})
@@ -1114,7 +1163,9 @@ def run_layout_v2(content, edits, want_ast):
         obs["pre"] = [pre_real(content), pre_real(econtent)]
         obs["pre_in"] = [content.split("\n"), econtent.split("\n")]
     if want_ast:
-        obs["ast"] = parse_real(content, "2.x")
+        # every call the transformer's comment stripper receives on the original goes to the Lean scanner too (CommentStrip)
+        obs["strip"] = []
+        obs["ast"] = parse_real(content, "2.x", obs["strip"])
         obs["east"] = parse_real(econtent, "2.x")
         obs["etext_tail"] = econtent[-160:]
     return obs
@@ -1335,10 +1386,11 @@ def run_err(case):
     for _ in range(case["n"]):
         content = mutate_text(rng, content)
     content = content.encode("utf-8", "replace").decode("utf-8")  # valid Unicode text only
-    obs = in_child(lambda: load_config_dir(content, version), ERR_TIMEOUT)
+    # one forked child under a CPU-time limit (a normal load needs < 1 s of CPU): a spinning parser is recognised independently of the
+    # machine load, without a retry; sleeping hangs are caught by the wall-clock limit
+    obs = cfgk.in_child_cpu([lambda: load_config_dir(content, version)], ERR_CPU, 120.0)[0]
     if obs.get("outcome") == "timeout":
-        # a loaded machine must not be mistaken for a hang: a second, three times longer attempt decides
-        obs = in_child(lambda: load_config_dir(content, version), 3 * ERR_TIMEOUT)
+        obs["timeout_s"] = obs.get("limit")
     obs["version"] = version
     obs["content"] = content
     obs["lines"] = content.splitlines()
@@ -1430,7 +1482,54 @@ def count_flow_headers(text):
     return len(re.findall(r"^flow[ \t]+\S", t, re.M))
 
 
+IN_PROCESS_LIMIT = float(os.environ.get("VERIF_C13_INPROC", "60"))   # wall-clock seconds for one in-process layout case (normally < 2 s)
+SWEEP_LIMIT = float(os.environ.get("VERIF_C13_SWEEP", "1200"))
+FORKED_KIND_LIMIT = float(os.environ.get("VERIF_C13_FORKED", "120"))
+_HANGS = 0
+
+
+class _InProcessHang(BaseException):
+    pass
+
+
 def run_impl(case):
+    """the in-process kinds (real lexer / parser called directly) run under a wall-clock watchdog: a change that makes the parser spin
+    on ordinary input must end as a verdict about THAT case, not as a time-out of the whole check.  (sre checks for signals while
+    it back-tracks, so the alarm does interrupt a regex.)  After two hangs a worker waits 5 s only, after six 1.5 s."""
+    global _HANGS
+    k = case["kind"]
+    if k in ("tok", "v2", "v1", "file"):
+        limit = SWEEP_LIMIT if case.get("sweep") else IN_PROCESS_LIMIT
+        if _HANGS >= 6:
+            limit = min(limit, 1.5)
+        elif _HANGS >= 2:
+            limit = min(limit, 5)
+    else:
+        # the kinds that load in forked children (own CPU / wall limits) also call the real parser in the worker itself (the world of a
+        # `cfg` tree, the token types of a `str` program, get_numbered_lines of an `err` text): the whole case gets a generous limit
+        limit = FORKED_KIND_LIMIT if _HANGS < 2 else (20 if _HANGS < 6 else 8)
+
+    def on_alarm(signum, frame):
+        raise _InProcessHang()
+
+    old_handler = signal.signal(signal.SIGALRM, on_alarm)
+    t0 = time.time()
+    old_timer = signal.setitimer(signal.ITIMER_REAL, limit, 2.0)
+    try:
+        try:
+            return _run_impl(case)
+        finally:
+            signal.setitimer(signal.ITIMER_REAL, 0)
+    except _InProcessHang:
+        _HANGS += 1
+        return {"inproc_hang": limit, "version": "?"}
+    finally:
+        signal.signal(signal.SIGALRM, old_handler)
+        if old_timer[0] > 0:  # the run budget of the main process (replay / serial mode)
+            signal.setitimer(signal.ITIMER_REAL, max(old_timer[0] - (time.time() - t0), 0.5))
+
+
+def _run_impl(case):
     k = case["kind"]
     if k == "tok":
         text = render_tok_lines(case["lines"])
@@ -1461,6 +1560,13 @@ def run_impl(case):
         return run_fmt(case)
     if k == "cfg":
         return cfgk.run_cfg(case, canon_ast)
+    if k == "str":
+        obs = strk.run_str(case, canon_ast)
+        if obs.get("base", {}).get("outcome") == "ok":
+            # which string-like terminals the real lexer produced (coverage tags `str-term:*`)
+            st = real_stream(expanded_text(obs["text"]) + "\n")
+            obs["terms"] = sorted({t[1] for t in st.get("ok", []) if t[0] == "b" and t[1] in tr_rx.STRING_LIKE | {"COMMENT"}})
+        return obs
     raise ValueError(k)
 
 
@@ -1497,9 +1603,13 @@ def _edits_of(case, obs):
 
 
 def model_requests(case, obs):
+    if "inproc_hang" in obs:
+        return []
     k = case["kind"]
     if k == "cfg":
         return cfgk.model_requests_cfg(case, obs)
+    if k == "str":
+        return strk.model_requests_str(case, obs)
     if obs.get("sweep"):
         return []
     if obs.get("version") == "2.x" and k in ("tok", "v2", "file"):
@@ -1518,6 +1628,7 @@ def model_requests(case, obs):
             if len(edits) == 1 and edits[0]["op"] == "scale" and scale_text_py(obs["mtext"], edits[0]["k"]) == obs["metext"]:
                 # `text_layout_scale`: Lean's own `scaleText k` of the original text must be the edited text and scan to its pieces
                 reqs.append({"m": "C13.textseg", "text": obs["mtext"], "k": edits[0]["k"], "toks": token_table(obs["mepieces"])})
+        reqs += [{"m": "C13.strip", "text": c["in"]} for c in obs.get("strip", [])]  # always last
         return reqs
     if obs.get("version") == "1.0" and k in ("v1", "file"):
         if not HAVE_NUMBERED:
@@ -1618,11 +1729,21 @@ def _unsafe(x):
 
 
 def compare(case, obs, mouts):
+    if "inproc_hang" in obs:
+        return None
     k = case["kind"]
     if k == "cfg":
         return cfgk.compare_cfg(case, obs, mouts)
+    if k == "str":
+        return strk.compare_str(case, obs, _unsafe(mouts))
     mouts = _unsafe(mouts)
     if obs.get("version") == "2.x" and k in ("tok", "v2", "file"):
+        ns = len(obs.get("strip", []))
+        if ns and len(mouts) >= ns and all("steps" in m for m in mouts[-ns:]):
+            d = strk.compare_calls(obs["strip"], mouts[-ns:])
+            if d:
+                return d
+            mouts = mouts[:-ns]
         if mouts and "text" in mouts[-1]:
             m = mouts[-1]
             mouts = mouts[:-1]
@@ -1706,9 +1827,13 @@ def compare(case, obs, mouts):
 # ============================================================================================ oracle (the property)
 
 def oracle(case, obs):
+    if "inproc_hang" in obs:
+        return f"parsing (lexer / parser / transformer called in-process on the files of the case) did not finish within {obs['inproc_hang']:g} s: a hang"
     k = case["kind"]
     if k == "cfg":
         return cfgk.oracle_cfg(case, obs)
+    if k == "str":
+        return strk.oracle_str(case, obs)
     if obs.get("sweep"):
         b = obs.get("bad") or obs.get("known_bad")
         if b:
@@ -1749,7 +1874,7 @@ def oracle(case, obs):
         if o in ("ok", "skip"):
             return None
         if o == "timeout":
-            return f"loading did not finish within {obs['timeout_s']} s"
+            return f"loading did not finish within {obs['timeout_s']}" + (" s" if not isinstance(obs['timeout_s'], str) else "") + ": a hang"
         if o == "adapter":
             return f"adapter failure {obs.get('cls')}: {obs.get('msg')}"
         if obs.get("is_cpe"):
@@ -1823,9 +1948,13 @@ def _last_line_is_bodyless_define(content):
 
 
 def signature(case, obs, msg):
+    if "inproc_hang" in obs:
+        return None
     k = case["kind"]
     if k == "cfg":
         return cfgk.signature_cfg(case, obs, msg)
+    if k == "str":
+        return strk.signature_str(case, obs, msg)
     if obs.get("sweep"):
         return "eol-comment-pre-expansion-v2" if obs.get("known_bad") and not obs.get("bad") else None
     if k in ("err", "fmt") and obs.get("outcome") == "raised":
@@ -1859,9 +1988,13 @@ def signature(case, obs, msg):
 
 
 def nontrivial(case, obs):
+    if "inproc_hang" in obs:
+        return False
     k = case["kind"]
     if k == "cfg":
         return obs["base"]["outcome"] == "ok" and len(obs["base"].get("parsed", [])) >= 2 or obs["base"]["outcome"] == "raised"
+    if k == "str":
+        return strk.nontrivial_str(case, obs)
     if obs.get("sweep"):
         return obs.get("tried", 0) > 0
     if k == "tok":
@@ -1874,9 +2007,13 @@ def nontrivial(case, obs):
 
 
 def tags(case, obs):
+    if "inproc_hang" in obs:
+        return ["kind:" + case["kind"], "in-process-hang"]
     k = case["kind"]
     if k == "cfg":
         return cfgk.tags_cfg(case, obs)
+    if k == "str":
+        return strk.tags_str(case, obs)
     t = ["kind:" + k + (":" + obs["version"] if "version" in obs and k == "file" else "")]
     if obs.get("sweep"):
         t.append("sweep-variants:%d" % (obs.get("tried", 0) // 50 * 50))
@@ -1920,6 +2057,10 @@ def shrink(case):
         # that still hangs costs the whole CPU limit
         import itertools
         yield from itertools.islice(cfgk.shrink_cfg(case), 12)
+        return
+    if k == "str":
+        import itertools
+        yield from itertools.islice(strk.shrink_str(case), 12)
         return
     if k == "file" and not case.get("sweep"):
         # explicit form: the same source with the edits spelled out (then the edits and the text can be shrunk)
@@ -2044,4 +2185,9 @@ def escalate(rng, focus, tier):
         cases.append({"kind": "v1", "src": {"text": gen_v1_comment_program(rng)},
                       "edits": [gen_edit_v1(rng, aim="comment") for _ in range(rng.choice([1, 1, 2]))]})
     cases = [cfgk.gen_cfg_case(rng) for _ in range(400)] + cases
+    cases = [strk.gen_str_case(rng) for _ in range(400)] + cases
+    nb = tr_rx.flagged_bodies(only_new=True)
+    if nb:
+        # a new / changed regex with a back-tracking shape: inputs aimed at that very repeat come first
+        cases = [strk.gen_pump_case(rng, nb * 20) for _ in range(600)] + cases
     return comment_sweep_cases() + cont_sweep_cases() + pre_sweep_cases() + cases
